@@ -21,6 +21,7 @@ type Case struct {
 	Src     string `json:"src"`
 	StopAt  int    `json:"stop_at"`
 	Endless bool   `json:"endless"`
+	Handler bool   `json:"handler,omitempty"`          // the stop point lies inside the delivery of a key event (TestHandlers)
 	Quiet   int    `json:"quiet_iterations,omitempty"` // iterations of loops whose body has no statement (no marker): each must still yield
 	Markers int    `json:"markers"`                    // loop iterations + calls predicted by the reference run (0 = unknown)
 }
@@ -137,6 +138,10 @@ func stop(c Case, full *fullRun) *h.Failure {
 }
 
 func checkCase(c Case) *h.Failure {
+	if c.Handler {
+		fl, _, _ := checkHandler(c)
+		return fl
+	}
 	if c.Endless {
 		return stop(c, nil)
 	}
